@@ -120,3 +120,20 @@ func Harness_C17_nested() {
 	names := m.Names()
 	vassert(len(names) == 3 && names[0] == "a.b.*" && names[1] == "c." && names[2] == "c.x", "Names of nested maps: sorted, complete")
 }
+
+// Harness_C17_names: ServiceMap.Names is sorted and complete for arbitrary
+// service and method names (a service name may be a prefix of another).
+func Harness_C17_names() {
+	s1 := nondetString("svc1", 2)
+	s2 := nondetString("svc2", 2)
+	assume(s1 != s2)
+	m1 := nondetString("meth1", 1)
+	m2 := nondetString("meth2", 1)
+	m := ServiceMap{s1: Map{m1: verifTagged(1)}, s2: Map{m2: verifTagged(2)}}
+	names := m.Names()
+	vassert(len(names) == 2, "C17: Names lists every method")
+	vassert(names[0] <= names[1], "C17: Names is sorted")
+	a, b := s1+"."+m1, s2+"."+m2
+	vassert((names[0] == a && names[1] == b) || (names[0] == b && names[1] == a), "C17: Names is complete")
+	reach("names")
+}
